@@ -61,6 +61,11 @@ def queries(tier):
             ex = ['C09-int64-min-real']
             qs.append(Query('int/%s/%s' % (ch, tag), 'C09_scan.cpp', 'h_int', kf({'ND': nd, 'SIGN': sg, 'CHAR': ch, 'PFX': '"%s"' % pfx}, ex), bounds=b,
                             stubs=STUBS, cflags=PRIV, kf_excl=ex, timeout=600, mem_gb=8))
+        # long integer part followed by . / e / E and a digit: consumed entirely, classified Real (19, 20 and 21 digits around the 64-bit boundary)
+        for tag, nd, sg, pfx in (('t19', 19, 0, '92233720368547'), ('t20', 20, 0, '184467440737095'), ('t20b', 20, 0, '100000000000000'), ('t21', 21, 0, '1000000000000000'), ('t20n', 20, 1, '184467440737095')):
+            n = nd + (1 if sg else 0) + 2
+            qs.append(Query('inttail/%s/%s' % (ch, tag), 'C09_scan.cpp', 'h_int_tail', kf({'ND': nd, 'SIGN': sg, 'CHAR': ch, 'PFX': '"%s"' % pfx}, []), bounds={'stringToNumber': n + 1, 'parseExponent': 4, 'h_int_tail': nd + 1, 'vf_buf.*': n + 1},
+                            stubs=STUBS, cflags=PRIV, timeout=600, mem_gb=8))
         qs.append(Query('int/%s/2p63n/kf-int64-min' % ch, 'C09_scan.cpp', 'h_int', kf({'ND': 19, 'SIGN': 1, 'CHAR': ch, 'PFX': '"92233720368547"'}, [], 'C09-int64-min-real'),
                         bounds={'stringToNumber': 21, 'h_int': 20, 'vf_buf.*': 21}, stubs=STUBS, cflags=PRIV, kf_only=ko('C09-int64-min-real'), timeout=600, mem_gb=8))
         # long written exponents
